@@ -1,5 +1,6 @@
 import Driver.Codec
 import Driver.FromJson
+import TartModel.Impl.ExecT
 import TartModel.Generated.Scalars
 /- Line-protocol driver: one JSON request per line on stdin, one JSON answer per line on stdout. -/
 open Lean Tart Tart.Codec Tart.FromJson
@@ -50,6 +51,41 @@ def handle (j : Json) : Except String Json := do
     let root ← match optField j "root" with | some v => decode v | none => pure PyVal.none
     let fuel := match optField j "fuel" with | some (Json.num n) => n.mantissa.toNat | _ => 100000
     pure (encodeResponse (executeRequest fuel S o env doc opName vars root))
+  | "schedule" =>
+    let S ← decodeSchema (← j.getObjVal? "schema")
+    let doc ← decodeDocument (← j.getObjVal? "doc")
+    let env ← decodeEnv ((j.getObjVal? "env").toOption.getD Json.null)
+    let o ← decodeOracle ((j.getObjVal? "stf").toOption.getD Json.null)
+    let opName := match optField j "op_name" with | some (Json.str s) => some s | _ => none
+    let vars ← match optField j "vars" with
+      | some v => decodeKVs v
+      | none => pure []
+    let root ← match optField j "root" with | some v => decode v | none => pure PyVal.none
+    let fuel := 100000
+    let choices ← (arrField j "choices").mapM fun c => do
+      let a ← c.getArr?
+      a.toList.mapM fun seg => match seg with
+        | Json.str s => pure (PathSeg.key s)
+        | Json.num n => pure (PathSeg.idx n.mantissa.toNat)
+        | _ => throw "bad path segment"
+    let direct := executeRequest fuel S o env doc opName vars root
+    match requestTree fuel S o env doc opName vars root with
+    | .error resp => pure (Json.mkObj [("refused", encodeResponse resp), ("pending", Json.arr #[]), ("ok", Json.bool true)])
+    | .ok (_, tree) =>
+      let ans := answersOf env
+      let den := finalResponse (denote ans tree)
+      let agrees := (encode den.1).compress == (encode direct.data).compress &&
+        (den.2.map (fun e => (encodeErr e).compress)) == (direct.errors.map (fun e => (encodeErr e).compress))
+      let sr := schedRun fuel ans choices (tree, []) []
+      let encGate (g : Gate) : Json := Json.mkObj [("coord", Json.str g.coord), ("path", encodePath g.path)]
+      let fin := match sr.final with
+        | some r => let f := finalResponse r
+                    Json.mkObj [("data", encode f.1), ("errors", Json.arr (f.2.map encodeErr).toArray)]
+        | none => Json.null
+      pure (Json.mkObj [("pending", Json.arr (sr.pendingSets.map fun ps => Json.arr (ps.map encGate).toArray).toArray),
+                        ("final", fin), ("ok", Json.bool sr.ok), ("tree_agrees_with_direct", Json.bool agrees),
+                        ("weight", Json.num (weight ans tree : Nat)),
+                        ("direct", encodeResponse direct)])
   | "echo" => pure (Json.mkObj [("ok", encode (← decode (← j.getObjVal? "value")))])
   | _ => throw s!"unknown op {op}"
 
